@@ -38,7 +38,7 @@ GET_BEHAVIOURS = ["cl", "chunked", "close-delimited", "cl-conn-close", "204", "3
                   "204+stray-same-seg", "204+stray-later-seg", "eof-in-headers", "eof-in-body",
                   "cl-then-silent-close", "cl-then-unsolicited", "chunked-then-unsolicited", "304+stray-same-seg",
                   "stall-in-body-rest-late", "stall-before-status-reply-late", "cl-2-now-rest-late", "chunked-1-now-rest-late",
-                  "chunked-bad-size-rest-late"]
+                  "chunked-bad-size-rest-late", "cl-head-now-body-late", "205-head-now-body-late"]
 POST_BEHAVIOURS = ["cl", "eof-in-headers", "cl-then-unsolicited", "cl-then-silent-close", "204+stray-same-seg",
                    "stall-before-status-reply-late"]
 HEAD_BEHAVIOURS = ["head-cl", "head-cl+body-sent", "head-cl-conn-close", "head-chunked"]
@@ -105,6 +105,11 @@ def reply(behaviour, i):
         e = evil(i)
         head = b"HTTP/1.1 200 OK\r\nTransfer-Encoding: chunked\r\n\r\n2\r\n" + p[:2] + b"\r\n"
         return head, [("LATE", b"%x\r\n" % len(e) + e + b"\r\n0\r\n\r\n")]
+    if behaviour in ("cl-head-now-body-late", "205-head-now-body-late"):
+        # only the header block has arrived; the whole Content-Length body (arbitrary bytes that happen to look like a
+        # response) is still in flight. 205 is an ordinary status as far as framing goes: its body is due like any other
+        st = b"200 OK" if behaviour.startswith("cl") else b"205 Reset Content"
+        return b"HTTP/1.1 " + st + b"\r\nContent-Length: %d\r\n\r\n" % len(evil(i)), [("LATE", evil(i))]
     if behaviour == "chunked-bad-size-rest-late":
         # one good chunk, then a diagnostic line where the next chunk size belongs (a gateway whose upstream died);
         # its error page for THIS request follows later on the same connection. The exchange did not end cleanly:
@@ -268,6 +273,8 @@ def execute(cfg, steps, acc=None, trace=None):
             want = payload(i)[:2] + evil(i)
         if steps[i][1] == "chunked-bad-size-rest-late":
             want = payload(i)[:2]
+        if steps[i][1] in ("cl-head-now-body-late", "205-head-now-body-late"):
+            want = evil(i)
         if not want.startswith(bytes(data)):
             viols.append(("foreign-bytes", {"behaviour": steps[i][1], "caller": steps[i][3], "method": method,
                                             "prev": steps[i - 1][1] if i else None, "prev_caller": steps[i - 1][3] if i else None},
@@ -339,7 +346,8 @@ def run(ctx):
     ctx.finish("model_checking", acc, cov,
                assumptions=["simnet in-memory sockets; is_connected's poll answered from the socket's pending bytes/EOF",
                             "payload(i) differs from payload(j) in the first byte; stray bytes are complete fake responses"],
-               vacuity=[(acc.counters["reuse_histories"] * 4 >= n, "connection reuse in < 1/4 of histories (%d of %d)" % (acc.counters["reuse_histories"], n)),
+               vacuity=[(acc.counters["reuse_histories"] * 6 >= n and acc.counters["reuse_histories"] > 20000,
+                         "connection reuse in too few histories (%d of %d)" % (acc.counters["reuse_histories"], n)),
                         (len(acc.outcomes) >= 6, "too few outcome classes")])
 
 
